@@ -155,6 +155,11 @@ pub fn replay(case: &J, thorough: bool, cli: Option<&str>, idx: usize) -> J {
         check_program(&format!("m = 1\n({})\noutput m", min), widths, use_cli, &mut mism, &mut evals);
         check_program(&format!("m = 1 // note\n// a comment line\n({})", min), widths, None, &mut mism, &mut evals);
     }
+    // after output declarations and comment lines only (no plain statement before it), and with an end-of-line comment of its own
+    if idx % 4 == 3 {
+        check_program(&format!("// totals\noutput m = 10\n({})  // negated\nq = 1\n({})", min, min), widths, use_cli, &mut mism, &mut evals);
+        check_program(&format!("output m = 10\n\n({})", min), widths, None, &mut mism, &mut evals);
+    }
     // ... and the same inside a do-block: as a later statement, below the block's own comment lines, and as the returned value
     if idx % 4 == 2 {
         check_program(&format!("g = w => do {{\n  m = w\n  // a comment line\n  ({})\n  // another\n\n  // and another\n  ({})\n  return ({})\n}}", min, min, min), widths, None, &mut mism, &mut evals);
